@@ -95,7 +95,10 @@ func runPool(t *testing.T, c *choice.Stream, r *Result, opt RunOpt, lean bool) {
 		cf.Hello = refproto.ServerHello{Name: "ClickHouse", Major: 23, Minor: 8, Revision: cf.ServerRev, Timezone: "UTC", DisplayName: "pool", Patch: 1}
 		maxConns := c.Range("maxconns", 1, 3)
 		minConns := c.Range("minconns", 0, 2)
-		if minConns > maxConns {
+		// more connections to keep warm than the pool may have: the pool either
+		// refuses that, or keeps to its maximum all the same
+		overMin := minConns > maxConns && c.Bool("minconns.over", 1, 3)
+		if minConns > maxConns && !overMin {
 			minConns = maxConns
 		}
 		sec := func(label string, vals ...int) time.Duration {
@@ -447,7 +450,9 @@ func runPool(t *testing.T, c *choice.Stream, r *Result, opt RunOpt, lean bool) {
 			}
 			pool, err := newPool(ctx, po)
 			if err != nil {
-				if len(dialFail) == 0 {
+				if overMin {
+					r.Probe("min_above_max_refused")
+				} else if len(dialFail) == 0 {
 					r.Harness("chpool.New failed without a dial fault: %v", err)
 				}
 				return
